@@ -441,6 +441,27 @@ pub fn decoder_constructors_u8_u16() {
     }
 }
 
+/// C18: RangeEncoder::is_empty holds exactly when sealing would return nothing: a fresh encoder on
+/// a sink that already holds words is not empty.
+#[cfg_attr(kani, kani::proof)]
+#[cfg_attr(kani, kani::unwind(8))]
+pub fn is_empty_u8_u16() {
+    let npre: usize = any(); assume(npre <= 2);
+    let mut v: Vec<u8> = Vec::with_capacity(4);
+    let mut i = 0; while i < npre { v.push(any()); i += 1; }
+    let fresh: bool = any();
+    let enc = if fresh { RangeEncoder::<u8, u16, Vec<u8>>::with_backend(v) } else {
+        let (st, sit) = u8_u16_p8::any_enc_state(1);
+        assume(st.range().get() != u16::MAX);
+        RangeEncoder::<u8, u16, Vec<u8>>::from_raw_parts(v, st, sit)
+    };
+    let e = enc.is_empty();
+    let n = enc.num_words();
+    let out = enc.into_compressed().unwrap();
+    assert!(e == (out.len() == 0), "C18: RangeEncoder::is_empty must hold exactly when exporting returns nothing");
+    assert!(n == out.len(), "C18/C12: RangeEncoder::num_words differs from the length of the export");
+}
+
 /// C02: `clear()` ("resets the coder to the same state as new") must leave an encoder that behaves
 /// like a fresh one: the next message it seals is that message and nothing else.  From ANY encoder
 /// state (also while words are held back for a pending carry): after clear(), encoding one symbol
@@ -457,8 +478,8 @@ pub fn clear_then_encode_u8_u16() {
     let e = any_entry::<u8, 8>(false);
     if enc.encode_symbol(e.sym, e).is_err() || fresh.encode_symbol(e.sym, e).is_err() { assert!(false, "C02: encode failed"); return; }
     let a = enc.into_compressed().unwrap(); let b = fresh.into_compressed().unwrap();
-    assert!(a.len() == b.len(), "C02: a cleared range encoder seals a different number of words than a new one");
-    let mut i = 0; while i < b.len() { assert!(a[i] == b[i], "C02: a cleared range encoder seals different words than a new one"); i += 1; }
+    assert!(a.len() == b.len(), "C02/C06/C12: a cleared range encoder seals a different number of words than a new one");
+    let mut i = 0; while i < b.len() { assert!(a[i] == b[i], "C02/C06/C12: a cleared range encoder seals different words than a new one"); i += 1; }
     cover!(matches!(sit, EncoderSituation::Inverted(..)), "cleared while words were held back");
 }
 
